@@ -25,6 +25,7 @@ META = {
 META["explanation"] += " " + '(SB-eqlen, shared with C15) key equality is length-checked.'
 META["explanation"] += " " + '(SB-keypair) a key object is forwarded as (First(), Length()) of the same object, never as First() alone. PR-rehash additionally: copyTable records as size the counter stepped once per constructed item; after a range Dispose of items every path rebuilds or clears the chains.'
 META["explanation"] += " " + "PR-capacity's guard form is decided on the CFG: the insert is dominated by the test Size() == Capacity() and reached over its false edge or, over its true edge, only after expand(). (HC-confirm) an equality with a stored hash decides a match only together with a key comparison."
+META["explanation"] += " " + '(SB-scan) every pointer scan over a table ends at base + Size() of the same table. (PR-wipe) the bucket array is cleared over Capacity() entries. PR-rename additionally: on every path to `return true` the item received the new key and the new hash (must-analysis).'
 
 HT = "Qentem::HashTable::"
 
@@ -402,11 +403,51 @@ def run(ctx):
         r.ob(rn.q, "append before unlink", bool(app) and bool(unl) and app[0] < unl[0], "the item is linked into the target chain before it leaves the source chain "
              "(the target link may be the item's own Next when both keys share a bucket)", rn.loc(inner[0]))
         r.ob(rn.q, "clear Next after unlink", bool(unl) and bool(clr) and unl[0] < clr[0], "Next is cleared after its old value was used to patch the source chain", rn.loc(inner[0]))
+    # every path that reports success stored the new key AND the new hash in the item (must-pass on the CFG): find() compares
+    # the stored hash first, so a renamed item that keeps its old hash is never found again
+    must = {}
+    blocks = rn.blocks()
+    work = [rn.cfg["entry"]]
+    must[rn.cfg["entry"]] = frozenset()
+    succ_returns = []
+    it = 0
+    while work and it < 5000:
+        it += 1
+        bid = work.pop()
+        st = set(must[bid])
+        for e in blocks[bid]["el"]:
+            x = e.get("n")
+            if not isinstance(x, int) or e.get("k"):
+                continue
+            n_ = rn.nodes[x]
+            if n_["k"] == "BinaryOperator" and n_["op"] == "=":
+                lhs = rn.text(n_["ch"][0]).replace(" ", "")
+                if lhs.endswith("->Hash") and rn.text(n_["ch"][1]) == H:
+                    st.add("hash")
+                if lhs.endswith("->Key"):
+                    st.add("key")
+            if n_["k"] == "ReturnStmt" and n_.get("val", -1) >= 0 and rn.const_value(n_["val"]) not in (None, 0):
+                succ_returns.append((x, frozenset(st)))
+        for (s_, k_, p_) in dataflow.successors(rn, blocks[bid]):
+            new_ = frozenset(st) if s_ not in must else (must[s_] & frozenset(st))
+            if s_ not in must or new_ != must[s_]:
+                must[s_] = new_
+                work.append(s_)
+    final = {}
+    for (x, st) in succ_returns:
+        final[x] = st if x not in final else (final[x] & st)
+    if not final:
+        r.broke("Rename: no `return true` found")
+    for x, st in sorted(final.items()):
+        r.ob(rn.q, "return true", st >= {"hash", "key"}, "on every path to this return the item received %s" % (
+            "the new key and the new hash" if st >= {"hash", "key"} else ("the new key but NOT the new hash: find() compares the stored hash first and never finds the renamed item" if "key" in st else "neither the key nor the hash")), rn.loc(x))
     rules.append(r)
     rules.append(rule_hash_confirm(ctx, m))
     rules.append(rule_key_pair(ctx, m))
     from rules.common import rule_equal_lengths
     rules.append(rule_equal_lengths(ctx, m))
+    rules.append(rule_scan_extent(ctx, m))
+    rules.append(rule_bucket_wipe(ctx, m))
     return rules
 
 
@@ -495,3 +536,114 @@ def assigns_in(f, root):
 
 def f_text(f, ifn):
     return f.text(f.nodes[ifn]["cond"]).replace(" ", "").replace("(", "").replace(")", "")
+
+
+
+def _local_inits(f):
+    out = {}
+    for x in astq.nodes_of(f, "DeclStmt"):
+        for dd in f.nodes[x]["decls"]:
+            if "d" in dd and dd.get("init", -1) >= 0:
+                out[dd["d"]] = dd["init"]
+    return out
+
+
+def _resolve(f, x, inits, depth=0):
+    x = f.strip_casts(x)
+    n = f.nodes[x]
+    if n["k"] == "DeclRefExpr" and n.get("d") in inits and depth < 4:
+        return _resolve(f, inits[n["d"]], inits, depth + 1)
+    return x
+
+
+def rule_scan_extent(ctx, m):
+    """SB-scan: the storage of a table holds Size() slots, live or removed (ActualSize() counts the live ones only).  Every loop
+    of the hash-table family that walks a table's items with a pointer runs to  base + Size()  of the SAME table the base pointer
+    came from; a bound taken from another quantity (the live count, the other table) skips trailing items or runs past the end."""
+    r = Rule("SB-scan", "a pointer scan over a table's items ends at base + Size() of that same table", floor=7)
+    for f in m.functions:
+        if f.inst or not f.cfg or f.cls not in ("Qentem::HashTable", "Qentem::HArray", "Qentem::HList"):
+            continue
+        inits = _local_inits(f)
+        for w in astq.nodes_of(f, ("WhileStmt", "DoStmt", "ForStmt")):
+            c = f.nodes[w].get("cond", -1)
+            if c is None or c < 0:
+                continue
+            for y in f.walk(c):
+                n = f.nodes[y]
+                if n["k"] != "BinaryOperator" or n["op"] not in ("<", "!="):
+                    continue
+                l_, r_ = n["ch"]
+                if f.nodes[f.strip_casts(l_)].get("tk") != "ptr" or f.nodes[f.strip_casts(r_)].get("tk") != "ptr":
+                    continue
+                base = _resolve(f, l_, inits)
+                end = _resolve(f, r_, inits)
+                bn, en = f.nodes[base], f.nodes[end]
+                if bn["k"] not in ("CallExpr", "CXXMemberCallExpr") or (f.call_simple_name(base) or "") not in ("First", "Storage"):
+                    continue
+                ctx.note_fn(f)
+                recv = f.call_receiver(base)
+                recv_t = f.text(recv) if recv is not None else "this"
+                ok, why = False, "the bound `%s` is not base + Size()" % f.text(end)[:60]
+                if en["k"] == "CallExpr" or en["k"] == "CXXMemberCallExpr":
+                    if (f.call_simple_name(end) or "") == "End":
+                        r2 = f.call_receiver(end)
+                        same = (f.text(r2) if r2 is not None else "this") == recv_t
+                        ok, why = same, "bound End() of %s" % ("the same table" if same else "ANOTHER table")
+                elif en["k"] == "BinaryOperator" and en["op"] == "+":
+                    a, b = en["ch"]
+                    if f.nodes[f.strip_casts(a)].get("tk") != "ptr":
+                        a, b = b, a
+                    pa = _resolve(f, a, inits)
+                    cnt = _resolve(f, b, inits)
+                    cn = f.nodes[cnt]
+                    pa_ok = f.nodes[pa]["k"] in ("CallExpr", "CXXMemberCallExpr") and (f.call_simple_name(pa) or "") in ("First", "Storage") and \
+                        (f.text(f.call_receiver(pa)) if f.call_receiver(pa) is not None else "this") == recv_t
+                    if cn["k"] in ("CallExpr", "CXXMemberCallExpr") and (f.call_simple_name(cnt) or "") == "Size":
+                        r2 = f.call_receiver(cnt)
+                        same = (f.text(r2) if r2 is not None else "this") == recv_t
+                        ok = same and pa_ok
+                        why = "runs to base + Size() of %s" % ("the same table (%s)" % recv_t if ok else "a DIFFERENT table or base")
+                    else:
+                        nm = f.call_simple_name(cnt) if cn["k"] in ("CallExpr", "CXXMemberCallExpr") else None
+                        why = "runs to base + %s: %s" % (f.text(cnt)[:40], "the number of live items, not of slots -- trailing items after a removed one are never visited" if nm == "ActualSize" else "not the slot count Size() of the table the base pointer came from")
+                r.ob(f.sig if len(m.fns(f.q, required=False)) > 1 else f.q, "%s %s %s" % (f.text(l_), n["op"], f.text(r_)), ok, why, f.loc(y))
+    return r
+
+
+def rule_bucket_wipe(ctx, m):
+    """PR-wipe: the bucket array has Capacity() entries and any of them may head a chain; where it is cleared
+    (Memory::SetToZero on the pointer obtained from getHashTable()) the extent is sizeof(entry) * Capacity().  A smaller extent
+    leaves heads that point at disposed or moved items."""
+    r = Rule("PR-wipe", "the bucket array is cleared over its whole capacity", floor=2)
+    for f in m.functions:
+        if f.inst or not f.cfg or f.cls not in ("Qentem::HashTable", "Qentem::HArray", "Qentem::HList"):
+            continue
+        inits = _local_inits(f)
+        for c in astq.calls(f, "SetToZero"):
+            a = f.call_args(c)
+            if len(a) != 2:
+                continue
+            p0 = _resolve(f, a[0], inits)
+            if f.nodes[p0]["k"] not in ("CallExpr", "CXXMemberCallExpr") or (f.call_simple_name(p0) or "") != "getHashTable":
+                continue
+            ctx.note_fn(f)
+            ext = _resolve(f, a[1], inits)
+            calls_in = set()
+            stack = [ext]
+            seen = set()
+            while stack:
+                z = stack.pop()
+                if z in seen:
+                    continue
+                seen.add(z)
+                for y in f.walk(z):
+                    yn = f.nodes[y]
+                    if yn["k"] in ("CallExpr", "CXXMemberCallExpr") and f.call_simple_name(y):
+                        calls_in.add(f.call_simple_name(y))
+                    if yn["k"] == "DeclRefExpr" and yn.get("d") in inits:
+                        stack.append(inits[yn["d"]])
+            ok = "Capacity" in calls_in and not (calls_in & {"Size", "ActualSize"})
+            r.ob(f.sig if len(m.fns(f.q, required=False)) > 1 else f.q, f.text(c)[:70], ok,
+                 "extent derives from %s" % (", ".join(sorted(calls_in)) or "no table quantity") + ("" if ok else ": buckets beyond it keep chain heads into items that no longer exist"), f.loc(c))
+    return r
